@@ -107,7 +107,8 @@ def pre_step(world: World, sim: SimRunner, inputs: InputData):
 
     for suc_sim in sim.successors_to_wait_for:
         suc = suc_sim.sid
-        if sim.last_step.time >= 0:
+        # (A successor that has not stepped yet has no node to link to.)
+        if sim.last_step.time >= 0 and sims[suc].last_step.time >= 0:
             suc_node = (suc, sims[suc].last_step)
             eg.add_edge(suc_node, node_id)
             assert sims[suc].progress.time.time + 1 >= next_step.time
